@@ -148,11 +148,42 @@ def affine_cases(ctx, stats):
     return out
 
 
+def flatten_cases(ctx, stats):
+    """Product Einsums whose mapping only flattens two ranks of one tensor (often an output rank with a reduced rank) - the
+    mapping changes the schedule only."""
+    rng = ctx.rng
+    out = []
+    stats["flatten_only"] = 0
+    for _ in range(50 if ctx.quick() else 500):
+        es = specgen.gen_product_einsum(rng)
+        mp = specgen.flatten_only_mapping(rng, es)
+        if mp is None:
+            continue
+        try:
+            spec = runlib.Spec(specgen.yaml_of(es["decl"], [es["expr"]], mp))
+            text = spec.compile()
+        except Exception as e:
+            k = type(e).__name__ + ": " + str(e)[:60]
+            stats["compile_errors"][k] = stats["compile_errors"].get(k, 0) + 1
+            continue
+        stats["flatten_only"] += 1
+        for j in range(2):
+            ext = runlib.default_extents(spec, rng, 1, 4)
+            data, scal = runlib.gen_inputs(spec, ext, rng, density=rng.choice([1.0, 0.6]))
+            out.append(execlib.Case(spec, text, ext, data, scal, meta={"flatten_only": True, "shape": es["shape"]}))
+    return out
+
+
 def run(ctx):
     specs = population(ctx)
     cases, stats = make_cases(ctx, specs, 2 if ctx.quick() else 3)
     aff = affine_cases(ctx, stats)
-    execlib.evaluate(cases + aff, "c01")
+    flat = flatten_cases(ctx, stats)
+    execlib.evaluate(cases + aff + flat, "c01")
+    for c in flat:
+        if not (c.result["status"] == "RAN" and c.result["out"] == "OK"):
+            key = {"kind": "wrong-result" if c.result["status"] == "RAN" else "execution-error", "flatten_only": True}
+            ctx.violation(key, "a mapping that only flattens two ranks changes the result: %s" % str(c.result)[:300], c.replay())
     from props import c04
     for c in aff:
         if not (c.result["status"] == "RAN" and c.result["out"] == "OK"):
